@@ -17,6 +17,7 @@ import (
 type elfProg struct {
 	Type    int   `json:"ptype"` // 1 = PT_LOAD
 	Vaddr   []int `json:"vaddr"` // 8 bytes
+	Paddr   []int `json:"paddr,omitempty"` // physical (load) address if it differs from vaddr; never used for loading
 	Content []int `json:"content"`
 	Filesz  int   `json:"filesz"` // -1: len(content)
 	Memsz   []int `json:"memsz"`  // 8 bytes
@@ -129,7 +130,11 @@ func writeELF(c elfCase) []byte {
 		le32(uint32(p.Flags))
 		le64(poffs[i])
 		le64(u64(p.Vaddr))
-		le64(u64(p.Vaddr))
+		if len(p.Paddr) == 8 {
+			le64(u64(p.Paddr))
+		} else {
+			le64(u64(p.Vaddr))
+		}
 		fs := uint64(len(p.Content))
 		if p.Filesz >= 0 {
 			fs = uint64(p.Filesz)
